@@ -28,7 +28,8 @@ CLAIMS["C01"] = proof(
 CLAIMS["C14"] = proof(
     "Proved for every history: exact characterisation of try_lock, try_read, try_upgradable_read, try_write, try_upgrade, try_acquire (Arc forms included) by the state words and, through the counting "
     "invariants, by what is alive (C14_*_exact); with nothing alive all succeed (C14_free_lock_succeeds). 'Never registers' is pinned by the tie lemmas (the try_* site lists contain no listen/poll) and "
-    "monitored at run time. Schedule half ('never succeeds in conflict') proved for the Mutex in C01_excl_sched, not yet for RwLock/Semaphore. " + CORR, NOTE)
+    "monitored at run time. Schedule half ('never succeeds in conflict') proved for every interleaving of the atomic operations, any number of threads, compare_exchange attempted with any (stale) expected value: Mutex C01_excl_sched; RwLock C14_try_write_sched, "
+    "C14_try_upgrade_sched, C14_try_read_sched, C14_try_upgradable_read_sched (a try_* that changes anything found no conflicting holder at that instant); Semaphore C14_try_acquire_sched (found a permit, took exactly one). " + CORR, NOTE)
 CLAIMS["C16"] = dict(category="proof",
     text="Decided by proof over a finite domain computed from the source: for every public type with a parameter T (21, from Gen/Markers.v) and each of the 4 kinds of T, declared Send/Sync implies the bounds the "
          "property demands (C16_send_sound, C16_sync_sound: forallb = true by vm_compute, lifted with forallb_forall), write side needs both (C16_write_side_needs_both), guards reaching DerefMut are invariant, only read "
@@ -54,8 +55,10 @@ CLAIMS["C02"] = proof(
     "when it fails the check names the weak site and evaluates candidate schedules (one per edge) of the machine to exhibit one on which the statement fails. " + CORR, NOTE)
 CLAIMS["C11"] = proof(
     "History half proved: C11_single_converter_hist (at most one of upgradable guard / write guard / announced writer / pending upgrade in every reachable state), C11_value_frame (the value changes only "
-    "through a write guard), C11_pending_upgrade_excludes (try_read / try_upgradable_read / try_write fail while a writer or upgrade is pending). Schedule half not yet proved: a split of a conversion into two "
-    "RMWs or a reordering inside one call is caught by the tie lemmas only (no-failing-input-found). " + CORR, NOTE)
+    "through a write guard), C11_pending_upgrade_excludes (try_read / try_upgradable_read / try_write fail while a writer or upgrade is pending). Schedule half proved on the word-level machine of C02 (coq/Sched/RwSched.v, any number of threads, every schedule, each conversion ONE atomic action that keeps the inner mutex): "
+    "C11_single_converter_sched (in every reachable state at most one thread is an upgradable reader / pending upgrader / announced writer / writer, and it holds the inner mutex) and C11_converter_excludes_sched (while it is, every other thread's "
+    "attempt to lock the inner mutex, to become an upgradable reader with any expected value, to announce, to try_write or to convert changes nothing). That each conversion is one RMW in the source is pinned by Tie_Raw; a split of a conversion into two "
+    "RMWs breaks that tie and is searched for by the loom scenario rw_downgrade_race. " + CORR, NOTE)
 CLAIMS["C13"] = proof(
     "First clause proved for every history and every oracle stream: C13_closed_hist — while a starved lock operation is alive try_lock/try_lock_arc return None, also while bit 0 is clear. "
     "Schedule half of the try_lock clause proved: C13_closed_sched — on the micro-step machine of C05 (coq/Sched/MutexEvSched.v), in every reachable state of every schedule, while some lock operation holds a starvation ticket the word is not 0 and the "
